@@ -48,10 +48,15 @@ Proof.
     assert (E: fst a <=? d = true) by (apply Nat.leb_le; lia). rewrite E. right. auto.
 Qed.
 
-Lemma sig_match_refl : forall comps s, sig_match comps s s = true.
+Lemma sig_match_own : forall comps s, comps_complete comps = true \/ s_posonly s = [] ->
+  sig_match comps (spec_of s) s = true.
 Proof.
-  intros. unfold sig_match. apply forallb_forall. intros c _.
-  destruct c; unfold comp_eqb, names_eqb; match goal with |- context[list_eq_dec ?d ?a ?b] => destruct (list_eq_dec d a b) end; congruence.
+  intros comps s H. unfold sig_match. apply forallb_forall. intros c I.
+  assert (E: forall a, names_eqb a a = true) by (intros; unfold names_eqb; destruct (list_eq_dec Nat.eq_dec a a); congruence).
+  destruct c; simpl; auto.
+  destruct H as [H|H].
+  - unfold comps_complete in H. rewrite forallb_forall in H. specialize (H _ I). discriminate.
+  - rewrite H. simpl. apply E.
 Qed.
 
 (* what is returned is a candidate *)
@@ -71,9 +76,10 @@ Qed.
 Theorem never_substituted : forall R ops comps nodes d ln ls t c,
   rules_ok R = true -> span_ok ops = true -> sorted nodes = true ->
   In (ln, ls) nodes -> In t ls -> ln <= d -> l_min t <= d <= l_max t ->
-  select R ops comps nodes d (l_sig t) = Found c -> c = t.
+  comps_complete comps = true \/ s_posonly (l_sig t) = [] ->
+  select R ops comps nodes d (spec_of (l_sig t)) = Found c -> c = t.
 Proof.
-  intros R ops comps nodes d ln ls t c OK SO SN IN IT LN SP H. unfold select in H.
+  intros R ops comps nodes d ln ls t c OK SO SN IN IT LN SP CC H. unfold select in H.
   apply apply_rules_found in H; auto.
   assert (T1: In t (filter (spans ops d) (lambda_nodes nodes d))).
   { apply filter_In. split.
@@ -83,7 +89,7 @@ Proof.
       apply andb_true_iff. split; apply Nat.leb_le; lia. }
   destruct H as [H|H].
   - rewrite H in T1. destruct T1 as [T1|[]]. auto.
-  - assert (T2: In t (filter (fun l => sig_match comps (l_sig t) (l_sig l)) (filter (spans ops d) (lambda_nodes nodes d)))).
-    { apply filter_In. split; auto. apply sig_match_refl. }
+  - assert (T2: In t (filter (fun l => sig_match comps (spec_of (l_sig t)) (l_sig l)) (filter (spans ops d) (lambda_nodes nodes d)))).
+    { apply filter_In. split; auto. apply sig_match_own; auto. }
     rewrite H in T2. destruct T2 as [T2|[]]. auto.
 Qed.
